@@ -4,7 +4,7 @@ import re
 from ir import callee_of, callee_generic, has_field, ends_in_field
 from flow import origins, is_local_op, call_matches, iter_uses, forward_taint
 
-SV_INSERT = r'smallvec::SmallVec::<A>::(insert|push|insert_many|extend|append|insert_from_slice)$'
+SV_INSERT = r'smallvec::SmallVec::<A>::(insert|push|insert_many|extend|append|insert_from_slice)$|iter::Extend::extend$|Extend<.*>>::extend$'
 SV_REMOVE = r'smallvec::SmallVec::<A>::(remove|clear|swap_remove|drain|truncate|pop|retain|retain_mut|dedup.*)$'
 MAP_MUT = r'::(insert|insert_full|swap_remove|shift_remove|remove|remove_entry|clear|retain|drain|entry|extend|append|get_mut|push|pop|truncate|reserve|sort.*)$'
 
@@ -39,6 +39,26 @@ def item_kind(b, o):
     return None, None
 
 
+def extend_item_kind(b, o):
+    """content.extend(iter.map(|x| ElementContent::Element(..))): the variant built by the mapping closure, or None"""
+    P = getattr(b, 'program', None)
+    if P is None:
+        return None
+    for org in origins(b, o):
+        if org[0] in ('param', 'const', 'place'):
+            continue
+        st = org[1]
+        if st.get('k') == 'call' and call_matches(st, r'Iterator>?::map$') and len(st['args']) >= 2:
+            for o2 in origins(b, st['args'][1]):
+                if o2[0] not in ('param', 'const', 'place') and o2[1].get('k') == 'assign' and o2[1]['rv']['k'] == 'agg' and o2[1]['rv'].get('ak') == 'closure':
+                    cb = P.bodies.get(o2[1]['rv'].get('fn'))
+                    if cb is not None:
+                        vs = {s_['rv']['var'] for q_, s_ in cb.iter_stmts() if s_['k'] == 'assign' and s_['rv']['k'] == 'agg' and s_['rv'].get('adt') == 'ElementContent'}
+                        if len(vs) == 1:
+                            return vs.pop()
+    return None
+
+
 def content_ops(b):
     """all mutations of an ElementRaw.content list in body b."""
     out = []
@@ -52,6 +72,8 @@ def content_ops(b):
             ik, inner = (None, None)
             if kind == 'insert' and len(t['args']) >= 2:
                 ik, inner = item_kind(b, t['args'][-1])
+                if ik is None and name == 'extend':
+                    ik = extend_item_kind(b, t['args'][-1])
             out.append({'pos': pos, 'op': name, 'kind': kind, 'recv': rp, 'item': ik, 'inner': inner, 'term': t})
     for pos, s in b.iter_stmts():
         if s['k'] == 'assign' and has_field(s['dst'], 'ElementRaw.content') and any(p.startswith('[') for p in s['dst']['p']):
